@@ -496,3 +496,12 @@ def run(ctx):
     # (the adjoint's backward pass calls integrate once per output interval on one solver; rule of C13)
     from . import c13
     ctx.guard(c13.r13_1)
+
+
+_run_before_clock = run
+
+
+def run(ctx):
+    _run_before_clock(ctx)
+    # termination also when the step size is below the resolution of the times (float32 ts far from the origin)
+    ctx.guard(ik.rule_clock_progress, "R14.8")
